@@ -155,6 +155,59 @@ pub fn randbulk(ws: &[&str]) -> String {
     all.join(",")
 }
 
+fn b64url_decode(s: &str) -> Option<Vec<u8>> {
+    let mut out = Vec::with_capacity(s.len() * 3 / 4);
+    let (mut acc, mut bits) = (0u32, 0u32);
+    for c in s.bytes() {
+        let v = match c {
+            b'A'..=b'Z' => c - b'A',
+            b'a'..=b'z' => c - b'a' + 26,
+            b'0'..=b'9' => c - b'0' + 52,
+            b'-' => 62,
+            b'_' => 63,
+            _ => return None,
+        } as u32;
+        acc = (acc << 6) | v;
+        bits += 6;
+        if bits >= 8 {
+            bits -= 8;
+            out.push((acc >> bits) as u8);
+            acc &= (1 << bits) - 1;
+        }
+    }
+    Some(out)
+}
+
+/// `RANDPOS csrf|pkce <bytes> <count>`: `count` values of the requested byte count; per byte
+/// position the number of DISTINCT byte values seen, then the number of distinct whole values
+pub fn randpos(ws: &[&str]) -> String {
+    if ws.len() != 3 {
+        return BAD.into();
+    }
+    let (n, count): (u32, usize) = match (ws[1].parse(), ws[2].parse()) {
+        (Ok(a), Ok(b)) => (a, b),
+        _ => return BAD.into(),
+    };
+    let mut seen = vec![[false; 256]; n as usize];
+    let mut whole = std::collections::HashSet::new();
+    for _ in 0..count {
+        let tok = match ws[0] {
+            "csrf" => CsrfToken::new_random_len(n).secret().clone(),
+            _ => PkceCodeChallenge::new_random_sha256_len(n).1.secret().clone(),
+        };
+        let raw = match b64url_decode(&tok) {
+            Some(r) if r.len() == n as usize => r,
+            _ => return format!("bad-shape {}", tok_bytes(tok.as_bytes())),
+        };
+        for (i, b) in raw.iter().enumerate() {
+            seen[i][*b as usize] = true;
+        }
+        whole.insert(raw);
+    }
+    let per: Vec<String> = seen.iter().map(|s| s.iter().filter(|x| **x).count().to_string()).collect();
+    format!("ok {} {}", if per.is_empty() { ".".to_string() } else { per.join(",") }, whole.len())
+}
+
 fn h<T: Hash>(t: &T) -> u64 {
     let mut s = DefaultHasher::new();
     t.hash(&mut s);
@@ -196,8 +249,35 @@ pub fn seceq(ws: &[&str]) -> String {
     if !FIRST_OK.load(std::sync::atomic::Ordering::SeqCst) {
         return "concurrent-first-use-gave-wrong-answers".to_string();
     }
+    // a string of exactly `len` bytes (capacity included) that differs from `like`
+    fn decoy_of(len: usize, like: &str) -> String {
+        let fill = if like.bytes().all(|c| c == b'z') { 'y' } else { 'z' };
+        let mut s = String::with_capacity(len);
+        for _ in 0..len {
+            s.push(fill);
+        }
+        s
+    }
     macro_rules! go {
         ($t:ident) => {{
+            // a value that was compared and hashed is dropped, and the next value of the same length
+            // takes over its buffer (what an allocator does for a free followed by an allocation of
+            // the same size): nothing remembered about the old value may be attributed to the new one
+            for s in [&a, &b] {
+                if !s.is_empty() {
+                    let d = $t::new(decoy_of(s.len(), s));
+                    #[allow(clippy::eq_op)]
+                    let _ = d == d;
+                    let _ = h(&d);
+                    drop(d);
+                    let fresh = $t::new(s.clone());
+                    let hf = h(&fresh);
+                    let copy = $t::new(s.clone());
+                    if !(fresh == copy) || hf != h(&copy) || fresh == $t::new(decoy_of(s.len(), s)) {
+                        return "stale-answer-after-a-dropped-value-of-the-same-length".to_string();
+                    }
+                }
+            }
             let x = $t::new(a.clone());
             let y = $t::new(b.clone());
             let eq = x == y;
